@@ -294,9 +294,11 @@ func ruleC20(c *Ctx) {
 		st, why := holds, ""
 		switch {
 		case rd.String() != wantRd:
+			// a wrapped or differently opened reader (bufio, OpenFile, Reset) reads the same bytes:
+			// a different term is not evidence; only a reader that does not come from the path at all is
 			st, why = unknown, "Parse reads "+short(rd.String())
-			if rd.Op != "phi" && len(opaqueParts(rd, vocabOf(wantRd))) == 0 && localDiff(rd, wantRd) {
-				st = broken
+			if rd.Op != "phi" && len(opaqueParts(rd, vocabOf(wantRd))) == 0 && !rd.contains(func(x *Term) bool { return x.isParam(0) || x.Op == "alloc" || x.Op == "phi" || x.Op == "load" || x.Op == "closure" }) {
+				st, why = broken, "Parse reads "+short(rd.String())+", which does not depend on the path given to Read"
 			}
 		default:
 			for _, e := range []string{"extract[1](call[os.Open](param[0]))", "extract[1](call[compress/gzip.NewReader](extract[0](call[os.Open](param[0]))))"} {
@@ -307,15 +309,41 @@ func ruleC20(c *Ctx) {
 		}
 		c.judge(st, "CHANLIFE", "Read:go Parse after both opens", g.Pos(), "Parse is started on gzip.NewReader(os.Open(path)) only when both calls returned nil errors", why)
 		// the reader is handed over untouched
-		var touched []string
+		// calls known to consume or narrow the stream are evidence; any other call on the reader
+		// (Reset on a fresh reader, a wrapper's constructor, a logging helper) is not followed
+		var touched, other []string
 		if refs := args[0].Referrers(); refs != nil {
 			for _, r := range *refs {
 				if ci, ok := r.(ssa.CallInstruction); ok && r != ssa.Instruction(g) {
-					touched = append(touched, calleeName(ci))
+					n := calleeName(ci)
+					harmful := false
+					switch {
+					case strings.HasSuffix(n, ".Read") || strings.HasSuffix(n, ".Close") || strings.HasSuffix(n, ".WriteTo") || n == "io.ReadAll" || n == "io/ioutil.ReadAll" || n == "io.Copy" || n == "io.CopyN" || n == "io.ReadFull":
+						harmful = true
+					case strings.HasSuffix(n, ".Multistream"):
+						as := callArgs(ci)
+						if k, ok := as[len(as)-1].(*ssa.Const); ok && k.Value != nil && k.Value.String() == "false" {
+							harmful = true
+						} else if !ok {
+							other = append(other, n)
+						}
+						if !harmful {
+							continue
+						}
+					}
+					if harmful {
+						touched = append(touched, n)
+					} else {
+						other = append(other, n)
+					}
 				}
 			}
 		}
-		c.check(len(touched) == 0, "CHANLIFE", "Read:reader untouched", g.Pos(), "the gzip reader's only use is being passed to Parse", "the gzip reader is reconfigured or consumed before Parse sees it: "+strings.Join(touched, ", ")+" (e.g. Multistream(false) makes every gzip member after the first invisible)")
+		if len(touched) == 0 && len(other) > 0 {
+			c.undecided("CHANLIFE", "Read:reader untouched", g.Pos(), "the gzip reader is also used by "+strings.Join(other, ", ")+", whose effect on the stream is not modelled")
+		} else {
+			c.check(len(touched) == 0, "CHANLIFE", "Read:reader untouched", g.Pos(), "the gzip reader's only use is being passed to Parse", "the gzip reader is reconfigured or consumed before Parse sees it: "+strings.Join(touched, ", ")+" (e.g. Multistream(false) makes every gzip member after the first invisible)")
+		}
 		okRet := true
 		for _, r := range returnsOf(read) {
 			if len(r.Results) != 3 || unwrap(r.Results[0]) != args[1] || unwrap(r.Results[1]) != args[2] {
